@@ -22,6 +22,9 @@ from . import common as C
 from . import w_fp as W
 
 PID = "C02"
+# a small young generation keeps 16 concurrent allocation-heavy TLC processes in cache (measured 1.6-2x); the java
+# launcher picks the variable up, explicit flags of common.tlc_cmd still win
+os.environ.setdefault("JDK_JAVA_OPTIONS", "-Xmn24m")
 TLA = "TraceFP.tla"
 
 GROUP_WHAT = {
@@ -47,18 +50,19 @@ def group_of(ev, clause):
         return "C02-solved"
     if clause == "outcome":
         return "C02-toubv-raises" if op == "toubv" else "C02-fold-raises"
+    rounding = W.ARITH + ["sqrt", "fptofp", "sbvtofp", "ubvtofp"]
+    if ev["iop"] in rounding and ev["irm"] != "RNE":
+        return "C02-rm-ignored"          # depth-2: the inner operation was folded with the wrong mode
+    if ev["iop"] == "div":
+        return "C02-div-specials"
     if op in ("tosbv", "toubv"):
         return "C02-rna-toint" if rm == "RNA" else "C02-other"
     if op == "div" and (rm == "RNE" or ev_is_div_special(ev)):
         return "C02-div-specials"
-    rounding = W.ARITH + ["sqrt", "fptofp", "sbvtofp", "ubvtofp"]
-    inner_rounding = ev["iop"] in rounding and ev["irm"] != "RNE"
     if op in ("sbvtofp", "ubvtofp") and rm == "RNE":
         return "C02-int2fp-double-rounding"
-    if (op in rounding and rm != "RNE") or inner_rounding:
+    if op in rounding and rm != "RNE":
         return "C02-rm-ignored"
-    if ev["iop"] == "div":
-        return "C02-div-specials"
     if op == "fpv":
         return "C02-fpv-float"
     return "C02-other"
@@ -85,20 +89,24 @@ def signature(ev, clause):
 def jobs_for(tier, seed, mode="claripy"):
     J = []
     base = {"mode": mode, "gen": "pool", "solved": 1, "fresh_every": 97, "shard": 4000}
-    if tier == "quick":
-        pool, np_arith, np_cmp, nd2, nrand = "quick", 2, 1, 400, 1500
-    else:
-        pool, np_arith, np_cmp, nd2, nrand = "closure", 12, 4, 6000, 20000
+    q = tier == "quick"
+    pool, nd2, nrand = ("quick", 400, 1500) if q else ("closure", 6000, 20000)
+    # quick: add/sub on the whole quick pool, mul/div/comparisons on the 30-value sub-pool (FP.tla evaluates a double
+    # mul/div in ~3 ms), solved side on every 3rd arithmetic/comparison case; thorough: closure pool, solved everywhere
     for fmt in ("d", "f"):
         for op in W.ARITH:
-            for k in range(np_arith):
-                J.append({**base, "fmt": fmt, "group": "arith", "ops": [op], "pool": pool, "part": k, "nparts": np_arith})
+            np_ = 2 if q else 12
+            for k in range(np_):
+                J.append({**base, "fmt": fmt, "group": "arith", "ops": [op], "part": k, "nparts": np_,
+                          "pool": ("quick" if op in ("add", "sub") else "small") if q else pool, "solved": 3 if q else 1})
     for fmt in ("d", "f"):
-        for k in range(np_cmp):
-            J.append({**base, "fmt": fmt, "group": "cmp", "pool": pool, "part": k, "nparts": np_cmp})
+        np_ = 1 if q else 4
+        for k in range(np_):
+            J.append({**base, "fmt": fmt, "group": "cmp", "pool": "small" if q else pool, "part": k, "nparts": np_,
+                      "solved": 3 if q else 1})
         for grp in ("unary", "toint", "fptofp", "inttofp", "bits"):
             J.append({**base, "fmt": fmt, "group": grp, "pool": pool})
-        J.append({**base, "fmt": fmt, "group": "d2", "pool": "quick" if tier == "quick" else "full", "n": nd2})
+        J.append({**base, "fmt": fmt, "group": "d2", "pool": "quick" if q else "full", "n": nd2})
     nr = 2 if tier == "quick" else 8
     for k in range(nr):
         J.append({**base, "gen": "rand", "seed": seed * 1000 + k, "n": nrand // nr, "rand": 1})
